@@ -236,6 +236,11 @@ class HasStates:
             sm.status = self.get_status(sm.statefunc, sm.status[0])[0], 'stopping'
             self.read_status()
             self.pollInfo.trigger(True)  # trigger poller
+        elif isinstance(sm.next_task, Start):
+            # a start was requested, but the machine did not start yet: withdraw it
+            sm.stop()
+            sm.status = stopped_status
+            self.read_status()
 
     @Command
     def stop(self):
